@@ -15,20 +15,22 @@ VARIABLES log
 P == {"p1", "p2", "p3"}
 Refs == {"main", "feat"}
 NoApps == <<>>
-NoGlobal == [gthr |-> {}, bfp |-> {}, all |-> P, apps |-> NoApps]
+NoGlobal == [gthr |-> {}, cg |-> {}, bfp |-> {}, all |-> P, apps |-> NoApps]       \* cg: the global rules that come from a controller
 MCPol ==
     "A" :> ([rules |-> [main |-> <<[pr |-> {"p1", "p2"}, thr |-> 1]>>, feat |-> <<>>]] @@ NoGlobal)
  @@ "B" :> ([rules |-> [main |-> <<[pr |-> {"p2"}, thr |-> 1]>>, feat |-> <<>>]] @@ NoGlobal)
  @@ "C" :> ([rules |-> [main |-> <<[pr |-> {"p1", "p2", "p3"}, thr |-> 2]>>, feat |-> <<[pr |-> {"p3"}, thr |-> 1]>>]] @@ NoGlobal)
- @@ "G" :> [rules |-> [main |-> <<[pr |-> {"p1", "p2"}, thr |-> 1]>>, feat |-> <<>>], gthr |-> {[refs |-> {"feat"}, thr |-> 1]}, bfp |-> {}, all |-> P, apps |-> NoApps]
- @@ "H" :> [rules |-> [main |-> <<[pr |-> {"p1", "p2"}, thr |-> 1]>>, feat |-> <<>>], gthr |-> {}, bfp |-> {"main"}, all |-> P, apps |-> NoApps]
- @@ "T" :> [rules |-> [main |-> <<[pr |-> {"p1"}, thr |-> 1]>>, feat |-> <<>>], gthr |-> {[refs |-> {"main", "feat"}, thr |-> 2]}, bfp |-> {}, all |-> P, apps |-> NoApps]
- @@ "R" :> [rules |-> [main |-> <<[pr |-> P, thr |-> 2]>>, feat |-> <<>>], gthr |-> {}, bfp |-> {}, all |-> P,
+ @@ "G" :> [rules |-> [main |-> <<[pr |-> {"p1", "p2"}, thr |-> 1]>>, feat |-> <<>>], gthr |-> {[refs |-> {"feat"}, thr |-> 1]}, cg |-> {}, bfp |-> {}, all |-> P, apps |-> NoApps]
+ @@ "K" :> [rules |-> [main |-> <<[pr |-> {"p1", "p2"}, thr |-> 1]>>, feat |-> <<>>], gthr |-> {[refs |-> {"feat"}, thr |-> 1], [refs |-> {"main"}, thr |-> 2]},
+            cg |-> {[refs |-> {"main"}, thr |-> 2]}, bfp |-> {}, all |-> P, apps |-> NoApps]      \* own global rule + a controller's
+ @@ "H" :> [rules |-> [main |-> <<[pr |-> {"p1", "p2"}, thr |-> 1]>>, feat |-> <<>>], gthr |-> {}, cg |-> {}, bfp |-> {"main"}, all |-> P, apps |-> NoApps]
+ @@ "T" :> [rules |-> [main |-> <<[pr |-> {"p1"}, thr |-> 1]>>, feat |-> <<>>], gthr |-> {[refs |-> {"main", "feat"}, thr |-> 2]}, cg |-> {}, bfp |-> {}, all |-> P, apps |-> NoApps]
+ @@ "R" :> [rules |-> [main |-> <<[pr |-> P, thr |-> 2]>>, feat |-> <<>>], gthr |-> {}, cg |-> {}, bfp |-> {}, all |-> P,
             apps |-> [appT |-> [trusted |-> TRUE, key |-> "appkey"], appU |-> [trusted |-> FALSE, key |-> "appkey2"]]]
  @@ "M3" :> ([rules |-> [main |-> <<[pr |-> P, thr |-> 3]>>, feat |-> <<>>]] @@ NoGlobal)
  @@ "T0" :> ([rules |-> [main |-> <<[pr |-> {"p1"}, thr |-> 1]>>, feat |-> <<>>]] @@ NoGlobal)
 
-PolIds == CASE Family = "merge" -> {"A", "C", "M3", "T"} [] Family \in {"window", "tworec"} -> {"A", "B"} [] Family \in {"approvals", "apprskip", "apprlate"} -> {"R"} [] Family = "nopolicy" -> {"A"} [] Family = "chain" -> {"A", "B"} [] Family = "global" -> {"A", "G", "H", "T"} [] Family = "recovery" -> {"A", "B"} [] OTHER -> {"A", "B", "C"}
+PolIds == CASE Family = "merge" -> {"A", "C", "M3", "T"} [] Family \in {"window", "tworec"} -> {"A", "B"} [] Family \in {"approvals", "apprskip", "apprlate"} -> {"R"} [] Family = "nopolicy" -> {"A"} [] Family = "chain" -> {"A", "B"} [] Family = "global" -> {"A", "G", "H", "T", "K"} [] Family = "recovery" -> {"A", "B"} [] OTHER -> {"A", "B", "C"}
 MainSigners == CASE Family = "merge" -> {"p1"} [] Family \in {"window", "tworec"} -> {"p1", "p3"} [] Family \in {"approvals", "apprskip", "apprlate"} -> {"p1", "kU"} [] Family = "chain" -> {"p1", "p3"} [] Family = "global" -> {"p1", "p3", "kU"} [] Family = "recovery" -> {"p1", "p3"} [] OTHER -> {"p1", "p2", "p3", "kU", "none"}
 
 PrevOf(l, r) == LET S == {j \in 1..Len(l) : IsFor(l[j], r)} IN IF S = {} THEN 0 ELSE Max(S)
@@ -108,7 +110,7 @@ C19Agrees == \A tree \in {1, 2} : C19Side =>
                 MergeAgrees(log, "main", tree, MergePredictI(log, "main", tree, {}), LAMBDA s : MergeVerifies(log, "main", tree, s, {}))
 \* C09 is C01Refines over the approvals family (statement-bound approvals, code-review approvals)
 \* C11: global rules only add constraints -- removing them never turns an accepted history into a rejected one
-Strip == "M3" :> "M3" @@ "R" :> "R" @@ "A" :> "A" @@ "B" :> "B" @@ "C" :> "C" @@ "G" :> "A" @@ "H" :> "A" @@ "T" :> "T0"
+Strip == "M3" :> "M3" @@ "R" :> "R" @@ "A" :> "A" @@ "B" :> "B" @@ "C" :> "C" @@ "G" :> "A" @@ "H" :> "A" @@ "T" :> "T0" @@ "K" :> "A"
 StripLog(l) == [i \in DOMAIN l |-> IF l[i].k = "pol" THEN [l[i] EXCEPT !.v = Strip[l[i].v]] ELSE l[i]]
 C11Mono == \A r \in Refs : /\ Impl(log, r, {}) = "ok" => Impl(StripLog(log), r, {}) = "ok"
                            /\ DVerdictC01(log, r, TRUE) = "ok" => DVerdictC01(StripLog(log), r, TRUE) = "ok"
@@ -135,7 +137,8 @@ Norm(e) == CASE e.k = "ann" -> [k |-> "ann", tg |-> SetToSeq(e.tg), s |-> e.s]
                                 crs |-> SetToSeq({[a EXCEPT !.approvers = SetToSeq(a.approvers), !.dismissed = SetToSeq(a.dismissed)] : a \in e.crs})]
              [] OTHER -> e
 PolJson == [v \in PolIds \cup {Strip[x] : x \in PolIds} |-> [rules |-> [r \in Refs |-> [n \in DOMAIN Pol[v].rules[r] |-> [pr |-> SetToSeq(Pol[v].rules[r][n].pr), thr |-> Pol[v].rules[r][n].thr]]],
-                              gthr |-> SetToSeq({[refs |-> SetToSeq(x.refs), thr |-> x.thr] : x \in Pol[v].gthr}),
+                              gthr |-> SetToSeq({[refs |-> SetToSeq(x.refs), thr |-> x.thr] : x \in Pol[v].gthr \ Pol[v].cg}),
+                              cgthr |-> SetToSeq({[refs |-> SetToSeq(x.refs), thr |-> x.thr] : x \in Pol[v].cg}),
                               bfp |-> SetToSeq(Pol[v].bfp), all |-> SetToSeq(Pol[v].all), apps |-> Pol[v].apps]]
 Emit == IF Len(log) <= 1 /\ (log = <<>> \/ log[1].k = "pol")
         THEN PrintT(ToJson([t |-> "POL", pol |-> PolJson, strip |-> [v \in PolIds |-> Strip[v]]]))
